@@ -31,6 +31,27 @@ SAME_RES = r"""
         }
     }
     fn plan_val(id: usize) -> Value { match planned(id) { Ok(v) => v, Err(_) => Value::None } }
+    // recorder standing in for the arm's operator function (whose own behaviour is decided by the operator cells): logs how often it is
+    // called and with which operands, returns a result drawn by the harness beforehand
+    static mut OPN: u32 = 0;
+    static mut OPT: [u8; 2] = [9; 2];
+    static mut OPV: [i128; 2] = [0; 2];
+    static mut OPRET_OK: bool = true;
+    static mut OPRET: i128 = 0;
+    fn note_arg(k: usize, v: Value) {
+        unsafe {
+            match &v { Value::Int(i) => { OPT[k] = 1; OPV[k] = *i; } Value::Bool(b) => { OPT[k] = 0; OPV[k] = *b as i128; } Value::None => { OPT[k] = 2; } _ => { OPT[k] = 9; } }
+        }
+        std::mem::forget(v);
+    }
+    fn op_ret() -> Result<Value> { unsafe { if OPRET_OK { Ok(Value::Int(OPRET)) } else { Err(Error::InvalidType) } } }
+    fn rec_op1(a: Value) -> Result<Value> { unsafe { OPN += 1; } note_arg(0, a); op_ret() }
+    fn rec_op2(a: Value, b: Value) -> Result<Value> { unsafe { OPN += 1; } note_arg(0, a); note_arg(1, b); op_ret() }
+    fn rec_index(a: Value, _i: &Index) -> Result<Value> { unsafe { OPN += 1; } note_arg(0, a); op_ret() }
+    fn op_got(k: usize, tag: u8, v: i128) -> bool { unsafe { OPT[k] == tag && (tag == 2 || OPV[k] == v) } }
+    fn out_is_ret(out: &Result<Value>) -> bool {
+        unsafe { if OPRET_OK { matches!(out, Ok(Value::Int(x)) if *x == OPRET) } else { matches!(out, Err(Error::InvalidType)) } }
+    }
 """
 
 
@@ -72,14 +93,20 @@ def gen(run, tier, seed=0, results_only=False):
                 raise EncodingError(f"strict arm {variant} with a field of kind {t}")
         extra_args = ", &idxv" if "index" in ft else ""
         call_f = f"{a['fn']}(" + ", ".join(f"plan_val({order[i]})" for i in range(n)) + extra_args + ")"
-        operand_kind = 0 if variant == "Not" else 1      # Bool for `!`, Int otherwise (any kind: the result is compared with f's own)
-        cases = [("vals", tuple([operand_kind] * n), "log_is(&[" + ", ".join(str(i) for i in range(n)) + "])",
-                  f"let exp = {call_f}; show(\"expected\", &exp); assert!(same_res(&out, &exp)); std::mem::forget(exp);")]
+        operand_kind = 1
+        rec = "rec_index" if "index" in ft else ("rec_op1" if n == 1 else "rec_op2")
+        # under Kani: the function is called exactly once, with the sub-results in the arm's argument order, and its result is returned
+        got = " && ".join(f"op_got({j}, 1, pi{order[j]})" for j in range(n))
+        kres = f"assert!(unsafe {{ OPN }} == 1 && {got}); assert!(out_is_ret(&out));"
+        nres = f"let exp = {call_f}; show(\"expected\", &exp); assert!(same_res(&out, &exp)); std::mem::forget(exp);"
+        cases = [("vals", tuple([operand_kind] * n), "log_is(&[" + ", ".join(str(i) for i in range(n)) + "])", kres, nres)]
         if not results_only:
-            cases.append(("first_fails", tuple([3] + [operand_kind] * (n - 1)), "log_is(&[0])", "assert!(matches!(&out, Err(Error::DivisionByZero)));"))
+            fail = "assert!(unsafe { OPN } == 0); assert!(matches!(&out, Err(Error::DivisionByZero)));"
+            nfail = "assert!(matches!(&out, Err(_)));"
+            cases.append(("first_fails", tuple([3] + [operand_kind] * (n - 1)), "log_is(&[0])", fail, nfail))
             if n == 2:
-                cases.append(("second_fails", (operand_kind, 3), "log_is(&[0, 1])", "assert!(matches!(&out, Err(Error::DivisionByZero)));"))
-        for cname, kinds, exp_log, exp_res in cases:
+                cases.append(("second_fails", (operand_kind, 3), "log_is(&[0, 1])", fail, nfail))
+        for cname, kinds, exp_log, exp_res, nat_res in cases:
             quick = cname == "vals" or (idx + seed) % 5 == 0
             # small integer payloads: the result is compared with the arm's own function on the same values, so the range is
             # irrelevant for what is decided here (order, once, pass-through), and CBMC's 128-bit multiplier/divider stays cheap
@@ -88,6 +115,8 @@ def gen(run, tier, seed=0, results_only=False):
         {c05.draw(max(n, 1))}
         {small}
         {c05.set_plan(kinds)}
+        let op_ok = inp.bool(); let op_ret = inp.i128();
+        unsafe {{ OPN = 0; OPRET_OK = op_ok; OPRET = op_ret; }}
         {' '.join(pre)}
         let rs = RuleSet::default(); let mut cache = FunctionCache::new(); let facts = Value::None;
         let mut ctx = EvalContext::new(&rs, &mut cache, &facts);
@@ -96,9 +125,8 @@ def gen(run, tier, seed=0, results_only=False):
         assert!({exp_log});
         {exp_res}
         std::mem::forget(out); std::mem::forget(rs); std::mem::forget(cache);"""
-            ctor = None
-            native = native_body(variant, n, kinds, exp_log, exp_res, "index" in ft)
-            h = Harness(f"arm_{variant}_{cname}", body, unwind=1, stubs=[("Expr::eval_rec", "oracle_eval_rec")], heavy=True,
+            native = native_body(variant, n, kinds, exp_log, nat_res, "index" in ft, small)
+            h = Harness(f"arm_{variant}_{cname}", body, unwind=1, stubs=[("Expr::eval_rec", "oracle_eval_rec"), (a["fn"], rec)], heavy=True,
                         mandatory=True, native_body=native, abstract=True,
                         meta={"node": variant, "arm": rhs[:160], "case": cname,
                               "asserted": "sub-expressions evaluated once each in field order; first error ends evaluation; result = the arm's function on the sub-results"})
@@ -144,13 +172,14 @@ def gen(run, tier, seed=0, results_only=False):
                         native_body=native_body(variant, n, kinds, exp_log, exp_res, False), abstract=True,
                         meta={"node": variant, "arm": rhs[:160], "case": cname,
                               "asserted": "the arm forwards its sub-expressions in field order to the lazy helper and returns (the post-processing of) its result"})
-            h.quick = True
+            h.quick = False
+            h.mandatory = False
             hs.append(h)
     preamble = SAME_RES + "\n" + "\n".join(fns) + "\n"
     return preamble, hs
 
 
-def native_body(variant, n, kinds, exp_log, exp_res, has_index):
+def native_body(variant, n, kinds, exp_log, exp_res, has_index, small=""):
     """Native replay through the public API: the node over probe() calls (call-logging, non-cacheable user function)."""
     if has_index:
         build = "Expr::Index(Box::new(native::probe(0)), Index::Vec(0))"
@@ -159,7 +188,9 @@ def native_body(variant, n, kinds, exp_log, exp_res, has_index):
     res = exp_res.replace("plan_val(", "plan_val(")
     return f"""
         {c05.draw(max(n, 1))}
+        {small}
         {c05.set_plan(kinds)}
+        let op_ok = inp.bool(); let op_ret = inp.i128();
         let idxv = Index::Vec(0);
         let out = native::run({build});
         show("result", &out); show("calls", &unsafe {{ LOG }}); show("ncalls", &unsafe {{ NLOG }});
